@@ -4,10 +4,10 @@ PROP = {'rule': 'rapid state machine, one unit per combination of EnableRuntimeQ
          'delivered by the harness). Case = webhook-valid quota tree (1-3 top-level quotas, depth <= 3, every quota of a top-level subtree '
          'declares the same dimensions out of {cpu, memory, example.com/gpu}, min <= max, children\'s min sum <= parent\'s min; lent / non-lent, '
          'default or custom shared weight; loaded by ReplaceQuotas or by add events), generated DefaultQuotaGroupMax / SystemQuotaGroupMax '
-         '(shipped "unbounded" value or small), EnableMinQuotaScale, 0-3 nodes; then ~50 steps of: pod add (quota by label, by namespace, by '
+         '(shipped "unbounded" value or small), EnableMinQuotaScale, 0-3 nodes; then ~70 steps of: pod add (quota by label, by namespace, by '
          'namespace annotation, dangling label -> default quota, default/system quota; preemptible or not; 1-2 containers, declared and '
          'undeclared dimensions), schedule (PreFilter, on Success Reserve, optionally an informer event between the two), finish binding (bind = '
-         'pod update with nodeName, or Unreserve), pod delete (optionally followed by the late Unreserve), pods labelled with a quota that does not exist yet (parked in the default quota, admitted / reserved / bound there), late quota create for such names (leaf below the root or below an existing parent, webhook-valid), migrate (the plugin\'s real periodic cycle migrateDefaultQuotaGroupsPod; afterwards the pod counts against its own quota in the model; parked pods are also scheduled, rolled back, bound and deleted inside the window between quota creation and migration), quota update (raise max / set min inside '
+         'pod update with nodeName, or Unreserve), pod delete (optionally followed by the late Unreserve), pods labelled with a quota that does not exist yet (parked in the default quota, admitted / reserved / bound there), late quota create for such names (leaf below the root or below an existing parent, webhook-valid), migrate (the plugin\'s real periodic cycle migrateDefaultQuotaGroupsPod; afterwards the pod counts against its own quota in the model; parked pods are also scheduled, rolled back, bound and deleted inside the window between quota creation and migration), quota label changes where the webhook allows them (toggle allow-lent-resource on any quota; toggle is-parent: a parent without children -> leaf, a leaf named by no pod -> parent; both make the manager rebuild the whole tree; re-parent a quota with its subtree below the root or below another is-parent quota with the same dimensions, outside its own subtree, whose min has room for it: the ancestor chains of the model follow), quota update (raise max / set min inside '
          'the webhook window / lower max), capacity change (node add / delete / resize / squeeze). non-trivial = some attempt was rejected on a '
          'quota, afterwards an assigned pod on that quota\'s path was released (delete or unreserve), and afterwards an attempt on the same quota '
          'was admitted. distinct = FNV-64 of setup + full history.',
@@ -25,7 +25,9 @@ PROP = {'rule': 'rapid state machine, one unit per combination of EnableRuntimeQ
                  'signature migration-window:reserve-or-unreserve-of-parked-pod-not-applied-to-holding-quota',
                  'a quota (and its ancestors) that received an assigned pod by migration is outside the used <= max claim from then on: running pods '
                  'arrive without admission',
-                 'quotas are not deleted or re-parented and pods do not change their label (C01 covers those); scheduling cycles are sequential '
+                 'ancestors that take over a re-parented subtree holding assigned pods are outside the used <= max claim from then on (that usage '
+                 'never passed their admission check); the per-attempt oracle keeps applying to them',
+                 'quotas are not deleted and pods do not change their label (C01 covers those); scheduling cycles are sequential '
                  '(PreFilter..Reserve of one pod at a time, as in the scheduler), binding outcomes and informer events interleave freely',
                  'the limit of a quota is what the plugin publishes: GetQuotaSummaries().Runtime after an explicit RefreshRuntime when runtime '
                  'quota is on (how that figure is computed is C02), the max last written by the harness otherwise; a verdict consistent with the '
@@ -38,10 +40,10 @@ PROP = {'rule': 'rapid state machine, one unit per combination of EnableRuntimeQ
  'units': [{'name': 'plugin',
             'pkg': 'pkg/scheduler/plugins/elasticquota',
             'files': ['C03/c03_admission_test.go'],
-            'tests': [{'run': 'TestVerifC03RuntimeOnParentOff', 'quick': 2000, 'thorough': 2500, 'steps': 70},
-                      {'run': 'TestVerifC03RuntimeOnParentOn', 'quick': 2000, 'thorough': 2500, 'steps': 70},
-                      {'run': 'TestVerifC03RuntimeOffParentOff', 'quick': 2000, 'thorough': 2500, 'steps': 70},
-                      {'run': 'TestVerifC03RuntimeOffParentOn', 'quick': 2000, 'thorough': 2500, 'steps': 70}]}],
+            'tests': [{'run': 'TestVerifC03RuntimeOnParentOff', 'quick': 2000, 'thorough': 2000, 'steps': 70},
+                      {'run': 'TestVerifC03RuntimeOnParentOn', 'quick': 2000, 'thorough': 2000, 'steps': 70},
+                      {'run': 'TestVerifC03RuntimeOffParentOff', 'quick': 2000, 'thorough': 2000, 'steps': 70},
+                      {'run': 'TestVerifC03RuntimeOffParentOn', 'quick': 2000, 'thorough': 2000, 'steps': 70}]}],
  'manifest': {'technique': 'property-based testing (rapid): model-based state machine over the closed loop pod add -> PreFilter -> Reserve -> '
                            'bind/Unreserve -> delete with quota and capacity changes, per-attempt decision oracle + history invariant',
               'text': 'Generated-history search over the real ElasticQuota plugin for each of the four runtime-quota x check-parent settings. A '
